@@ -436,6 +436,252 @@ def stratum_raw(c, r):
     return "rejected"
 
 
+# ----------------------------------------------------------------------------- histories
+HFAM = {
+    "sel": ["sel_a", "sel_b", "sel_c", "sel_1", "sel_2", "sel_x_y", "selection"],
+    "flt": ["filter", "filter_main", "flt_1"],
+    "us": ["_sel_a", "_filt_ab_sel_1", "_x", "_sel_b", "__"],
+    "other": ["notepad", "android", "other", "x", "1st", "them_", "a-b", "any1", "of"],
+}
+HALL = [n for f in HFAM.values() for n in f]
+HPATS = ["sel_*", "sel_*", "them", "them", "*", "_*", "*_a", "s*_*", "sel_a", "*l_*", "_sel*", "f*", "filter*", "*_1",
+         "*sel*", "*_*", "sel*", "_filt*", "o*", "*x*"]
+
+
+def hist_leaf(rng, stable, pats):
+    r = rng.random()
+    if r < 0.72:
+        return ("sel", rng.choice(QUANTS), rng.choice(pats))
+    return ("id", rng.choice(stable))
+
+
+def hist_fill(shape, rng, stable, pats):
+    if shape[0] == "leaf":
+        return hist_leaf(rng, stable, pats)
+    if shape[0] == "not":
+        return ("not", hist_fill(shape[1], rng, stable, pats))
+    return (shape[0], hist_fill(shape[1], rng, stable, pats), hist_fill(shape[2], rng, stable, pats))
+
+
+def gen_history_one(rng):
+    atom = [0]
+
+    def fresh_atom():
+        atom[0] += 1
+        return atom[0] - 1
+
+    n0 = rng.randint(2, 4)
+    names0 = rng.sample(HFAM["sel"], rng.randint(1, 2)) + rng.sample(HALL, n0)
+    names0 = list(dict.fromkeys(names0))[:4]
+    src = [[n, fresh_atom()] for n in names0]
+    stable = [names0[0]]                      # never removed or renamed: usable as a plain name
+    live = [p for p in HPATS if selects(names0, p)]
+    pats = rng.sample(live, min(2, len(live))) + rng.sample(HPATS if rng.random() < 0.35 or not live else live, 1)
+    conds = []
+    for i in range(rng.randint(2, 3)):
+        e = hist_fill(random_shape(rng, rng.choice([1, 1, 2, 2, 3])), rng, stable if rng.random() < 0.9 else HALL, pats)
+        conds.append(spell(e, rng, None, rng.choice(["normal", "normal", "tight"])))
+    if rng.random() < 0.3:
+        conds.append(conds[0])                # the very same text twice in the rule
+    rules = {}
+    steps = []
+    nparse = [0]
+
+    def parse(k, which=None):
+        for ci in (which if which is not None else range(len(conds))):
+            modes = rng.choice([["existing"], ["fresh"], ["existing", "fresh"], ["fresh", "existing"]])
+            for m in modes:
+                steps.append(["parse", k, ci, m, [list(x) for x in rules[k]]])
+                nparse[0] += 1
+
+    def mutate(k):
+        cur = rules[k]
+        present = {n for n, _ in cur}
+        for _ in range(rng.randint(1, 2)):
+            r = rng.random()
+            removable = [n for n, _ in cur if n not in stable]
+            if r < 0.45 and len(cur) < 6:
+                fam = rng.choice(["sel", "sel", "us", "flt", "other"])
+                cand = [n for n in HFAM[fam] if n not in present]
+                if not cand:
+                    continue
+                n = rng.choice(cand)
+                a = fresh_atom()
+                cur.append([n, a])
+                present.add(n)
+                steps.append(["add", k, n, a])
+            elif r < 0.75 and removable and len(cur) > 1:
+                n = rng.choice(removable)
+                cur[:] = [x for x in cur if x[0] != n]
+                present.discard(n)
+                steps.append(["remove", k, n])
+            elif removable:
+                old = rng.choice(removable)
+                cand = [n for n in HALL if n not in present]
+                if not cand:
+                    continue
+                new = rng.choice(cand)
+                a = [x[1] for x in cur if x[0] == old][0]
+                cur[:] = [x for x in cur if x[0] != old] + [[new, a]]
+                present.discard(old)
+                present.add(new)
+                steps.append(["rename", k, old, new])
+
+    def new(k):
+        rules[k] = [list(x) for x in src]
+        steps.append(["new", k])
+
+    def copy(a, b):
+        rules[b] = [list(x) for x in rules[a]]
+        steps.append(["copy", a, b])
+
+    def dmutate():
+        present = {n for n, _ in src}
+        cand = [n for n in HFAM["sel"] + HFAM["us"] + HFAM["flt"] if n not in present]
+        removable = [n for n, _ in src if n not in stable]
+        if cand and (rng.random() < 0.6 or not removable) and len(src) < 6:
+            n = rng.choice(cand)
+            a = fresh_atom()
+            src.append([n, a])
+            steps.append(["dadd", n, a])
+        elif removable:
+            n = rng.choice(removable)
+            src[:] = [x for x in src if x[0] != n]
+            steps.append(["dremove", n])
+
+    new(0)
+    kind = rng.choice(["single", "single", "single", "twodict", "copy", "mixed"])
+    if kind == "single":
+        parse(0, rng.sample(range(len(conds)), rng.randint(1, len(conds))))
+        for _ in range(rng.randint(1, 3)):
+            mutate(0)
+            parse(0)
+    elif kind == "twodict":
+        parse(0)
+        dmutate()
+        if rng.random() < 0.5:
+            dmutate()
+        new(1)
+        parse(1)
+        parse(0)
+        mutate(1)
+        parse(1)
+        parse(0)
+    elif kind == "copy":
+        if rng.random() < 0.7:
+            parse(0)
+        copy(0, 1)
+        mutate(1)
+        parse(1)
+        parse(0)
+        mutate(0)
+        parse(0)
+        parse(1)
+    else:
+        parse(0)
+        for _ in range(rng.randint(2, 4)):
+            r = rng.random()
+            ks = sorted(rules)
+            if r < 0.5:
+                k = rng.choice(ks)
+                mutate(k)
+                parse(k)
+            elif r < 0.7 and len(ks) < 3:
+                copy(rng.choice(ks), len(ks))
+                parse(len(ks))
+            elif r < 0.85 and len(ks) < 3:
+                dmutate()
+                new(len(ks))
+                parse(len(ks))
+            else:
+                parse(rng.choice(ks))
+    return {"dict": [list(x) for x in ([[n, a] for n, a in zip(names0, range(len(names0)))])], "conds": conds, "steps": steps}
+
+
+def gen_history(tier, rng):
+    out = [
+        # the coordinator's exposing sequence, and its variants
+        {"dict": [["sel_a", 0], ["sel_b", 1]], "conds": ["1 of sel_*", "all of sel_* and not 1 of them"],
+         "steps": [["new", 0], ["parse", 0, 0, "existing", [["sel_a", 0], ["sel_b", 1]]], ["add", 0, "sel_c", 2],
+                   ["parse", 0, 0, "fresh", [["sel_a", 0], ["sel_b", 1], ["sel_c", 2]]],
+                   ["parse", 0, 0, "existing", [["sel_a", 0], ["sel_b", 1], ["sel_c", 2]]],
+                   ["parse", 0, 1, "existing", [["sel_a", 0], ["sel_b", 1], ["sel_c", 2]]],
+                   ["remove", 0, "sel_a"], ["parse", 0, 0, "existing", [["sel_b", 1], ["sel_c", 2]]],
+                   ["parse", 0, 1, "fresh", [["sel_b", 1], ["sel_c", 2]]]]},
+        {"dict": [["sel_a", 0], ["x", 1]], "conds": ["1 of them", "x and all of _*"],
+         "steps": [["new", 0], ["parse", 0, 0, "existing", [["sel_a", 0], ["x", 1]]], ["parse", 0, 1, "existing", [["sel_a", 0], ["x", 1]]],
+                   ["add", 0, "_x", 2], ["rename", 0, "sel_a", "_sel_a"],
+                   ["parse", 0, 0, "existing", [["x", 1], ["_x", 2], ["_sel_a", 0]]],
+                   ["parse", 0, 1, "existing", [["x", 1], ["_x", 2], ["_sel_a", 0]]]]},
+    ]
+    for _ in range(450 if tier == "quick" else 6000):
+        out.append(gen_history_one(rng))
+    return out
+
+
+def _remap_leaves(t, atoms):
+    if t is None:
+        return None
+    if t[0] == "leaf":
+        return ["leaf", atoms.index(t[1]) if t[1] in atoms else -1]
+    return [t[0]] + [_remap_leaves(a, atoms) for a in t[1:]]
+
+
+def hist_parse_steps(c):
+    return [st for st in c["steps"] if st[0] == "parse"]
+
+
+def hist_to_coq(c, r):
+    if "exc" in r:
+        # the history itself could not be executed (a step raised): never equal to the model
+        return "[(([] : list str), ([] : str), (Crash 3 : outcome ptree), (Crash 3 : outcome (option ctree)), (None : option (list bool)))]"
+    terms = []
+    for st, pr in zip(hist_parse_steps(c), r["parses"]):
+        names = st[4]
+        dets = [n for n, _ in names]
+        atoms = [a for _, a in names]
+        pr2 = dict(pr)
+        if "exc" not in pr["post"]:
+            pr2["post"] = {"t": _remap_leaves(pr["post"]["t"], atoms)}
+        if pr.get("keys") != dets:
+            pr2["post"] = {"exc": "HarnessStateMismatch", "sigma": False}
+        cp, cq, ct = impl_terms({"dets": dets}, pr2)
+        terms.append(f"({clist(cstr(n) for n in dets)}, {cstr(c['conds'][st[2]])}, {cp}, {cq}, {ct})")
+    return clist(terms)
+
+
+def known_hist(c, r):
+    if "exc" in r:
+        return None
+    for st, pr in zip(hist_parse_steps(c), r["parses"]):
+        dets = [n for n, _ in st[4]]
+        if isinstance(pr.get("parse"), list) and any(not selects(dets, p) for p in parse_patterns(pr["parse"])):
+            return "C02-empty-selector"
+    return None
+
+
+def mutate_hist(c, rng):
+    """neighbours: the same history with one non-parse step (other than object creation) left out is not
+    well-defined in general; instead shorten it from the end"""
+    out = []
+    steps = c["steps"]
+    for k in range(len(steps) - 1, 1, -1):
+        if steps[k - 1][0] == "parse":
+            out.append(dict(c, steps=steps[:k]))
+    return out[:20]
+
+
+def stratum_hist(c, r):
+    kinds = {st[0] for st in c["steps"]}
+    if "copy" in kinds and "dadd" not in kinds and "dremove" not in kinds:
+        return "deepcopy"
+    if len([st for st in c["steps"] if st[0] == "new"]) > 1:
+        return "two rules from one dict"
+    if "copy" in kinds:
+        return "mixed"
+    return "one rule"
+
+
 def depth_check(tier, seed):
     """Deep nesting: the implementation either returns the right tree or (known finding) gives up with a
     SigmaConditionError; a non-Sigma exception or a different tree is a violation."""
@@ -474,6 +720,8 @@ PROPERTY = Property(
               stratum=stratum_spell, shard=250),
         Suite("raw", gen_raw, "run_cond", REQ, "judge_raw", raw_to_coq, known=known_raw, mutate=mutate,
               stratum=stratum_raw, shard=400),
+        Suite("history", gen_history, "run_history", REQ, "judge_hist", hist_to_coq, known=known_hist, mutate=mutate_hist,
+              stratum=stratum_hist, shard=60),
     ],
     extra_checks=[depth_check],
     rule="spell: every expression shape (and/or binary, any node negated) with <= 3 (quick) / 4 (thorough) leaves x 3 parenthesis "
@@ -481,13 +729,18 @@ PROPERTY = Property(
          "all_x, any1, of, them_, 1st, a-b, _x, 1, any, all, them, NOT ...), undefined names, selectors 1/any/all with patterns having "
          "leading / trailing / inner '*', 'them', '_*', empty matches; 1-5 detections, all 2^n assignments. raw: all strings of length "
          "<= 3 (quick) / 4 (thorough) over {a n o t d r 1 f * _ - ( ) blank}, all sequences of <= 3 / 4 words over 16 hostile words, random token "
-         "soups with illegal characters, valid spellings damaged by one edit. non-trivial = more than a bare name (spell) / not a lexical error (raw)",
+         "soups with illegal characters, valid spellings damaged by one edit. history: rule objects (SigmaRule.from_dict, 2-3 conditions with selectors, "
+         "the same pattern / the same text in several conditions) are parsed (existing SigmaCondition and fresh SigmaCondition on the same detections), "
+         "their detection set is changed (add / remove / rename of matching, non-matching and underscore-prefixed names), and parsed again; also two rules "
+         "built from one (changed) dict and copy.deepcopy of a rule changed independently; every parse is compared with the model and the specification "
+         "for the names present at that moment. non-trivial = more than a bare name (spell) / not a lexical error (raw)",
     assumptions=[
         "pyparsing's scannerless matching of the repaired grammar coincides with max-munch words over [A-Za-z0-9_*-] plus the token-level PEG "
         "of Model/CondParse.v (incl. the 'of*x' quirk): validated by the correspondence only",
         "re.fullmatch(pattern.replace('*','.*'), name, DOTALL) is modelled by a backtracking matcher for literals and '.*' (Model/Cond.v rmatch)",
         "each detection is a single field=value atom; the detection's own condition tree belongs to other properties",
-        "the lru_cache / deepcopy of the parse result is only observed through a repeated .parsed access (C15 covers sharing)",
+        "state kept between parses (lru_cache of parse trees, anything remembered on the rule / detections object) is observed through repeated "
+        "parses in one process: suite history (change of the detection set between parses, copies, rules from one dict) and the repeated .parsed access",
         "nesting depth of generated conditions is bounded by 9 (the CPython recursion limit is not modelled; suite 'depth' and finding "
         "C02-deep-nesting-rejected cover what happens beyond it)",
     ],
